@@ -1,5 +1,6 @@
 /* C18 implementation driver.  One case = one (instance, fault set):
  *     inst <name> <id>
+ *     fill <hex byte>           (optional: byte the object storage is filled with before the constructor; default 00)
  *     faults k1 k2 ...          (1-based indexes of the acquisition calls that fail; may be empty)
  * The object is pre-built without faults where the instance says so, the
  * operation runs with the faults armed, then the matching destroy runs.
@@ -7,7 +8,7 @@
  *     pre live=<blocks+fds held by the pre-built object>
  *     op rc=<ok|fail> att=<calls attempted> live=<blocks+fds still held>
  *     destroy live=<..>     |  destroy skipped live=<..>
- * Caller-provided object storage is zero-filled before the constructor runs.
+ * Caller-provided object storage is filled with the `fill` byte (00 or A5) before the constructor runs.
  * A crash (sanitizer report, signal) or a hang (watchdog) ends the process
  * without END and is reported by the batch runner. */
 #include "vdrv.h"
@@ -54,18 +55,31 @@ static muggle_async_logger_t g_alog;
 static int g_keys[8] = { 10, 20, 30, 40, 50, 60, 70, 80 };
 static void *g_sortarr[5];
 
+static int g_fill;      /* byte the object storage is filled with before the constructor: 0x00 or 0xA5 */
+#define memset0(p, z, n) memset((p), g_fill, (n))
 static void zero_all(void)
 {
-	memset(&g_chan, 0, sizeof g_chan); memset(&g_rb, 0, sizeof g_rb); memset(&g_db, 0, sizeof g_db);
-	memset(&g_abq, 0, sizeof g_abq); memset(&g_mp, 0, sizeof g_mp); memset(&g_sowr, 0, sizeof g_sowr);
-	memset(&g_ts, 0, sizeof g_ts); memset(&g_rp, 0, sizeof g_rp); memset(&g_ps, 0, sizeof g_ps);
-	memset(&g_bb, 0, sizeof g_bb); memset(&g_fc, 0, sizeof g_fc); memset(&g_al, 0, sizeof g_al);
-	memset(&g_heap, 0, sizeof g_heap); memset(&g_stack, 0, sizeof g_stack); memset(&g_avl, 0, sizeof g_avl);
-	memset(&g_ht, 0, sizeof g_ht); memset(&g_ll, 0, sizeof g_ll); memset(&g_q, 0, sizeof g_q);
-	memset(&g_trie, 0, sizeof g_trie); memset(&g_sig, 0, sizeof g_sig); g_ev = NULL;
-	memset(&g_ctx, 0, sizeof g_ctx); memset(&g_seh, 0, sizeof g_seh); memset(&g_sctx, 0, sizeof g_sctx);
-	memset(&g_alog, 0, sizeof g_alog); memset(&g_ctx2, 0, sizeof g_ctx2); memset(&g_evpipe, 0, sizeof g_evpipe);
+	memset0(&g_chan, 0, sizeof g_chan); memset0(&g_rb, 0, sizeof g_rb); memset0(&g_db, 0, sizeof g_db);
+	memset0(&g_abq, 0, sizeof g_abq); memset0(&g_mp, 0, sizeof g_mp); memset0(&g_sowr, 0, sizeof g_sowr);
+	memset0(&g_ts, 0, sizeof g_ts); memset0(&g_rp, 0, sizeof g_rp); memset0(&g_ps, 0, sizeof g_ps);
+	memset0(&g_bb, 0, sizeof g_bb); memset0(&g_fc, 0, sizeof g_fc); memset0(&g_al, 0, sizeof g_al);
+	memset0(&g_heap, 0, sizeof g_heap); memset0(&g_stack, 0, sizeof g_stack); memset0(&g_avl, 0, sizeof g_avl);
+	memset0(&g_ht, 0, sizeof g_ht); memset0(&g_ll, 0, sizeof g_ll); memset0(&g_q, 0, sizeof g_q);
+	memset0(&g_trie, 0, sizeof g_trie); memset0(&g_sig, 0, sizeof g_sig); g_ev = NULL;
+	memset(&g_ctx, 0, sizeof g_ctx); memset0(&g_seh, 0, sizeof g_seh); memset(&g_sctx, 0, sizeof g_sctx);
+	memset0(&g_alog, 0, sizeof g_alog); memset(&g_ctx2, 0, sizeof g_ctx2); memset0(&g_evpipe, 0, sizeof g_evpipe);
 	memset(&g_lctx, 0, sizeof g_lctx); g_hctx = NULL; g_lfd = g_cfd = g_ufd = -1;
+}
+
+/* caller-owned values stored in containers; the destroy callback releases them and is counted */
+#define MAX_VALS 8
+static void *g_vals[MAX_VALS];
+static int g_cb_count;
+static void cb_free_val(void *pool, void *data) { (void)pool; g_cb_count++; free(data); }
+static int make_vals(int n)
+{
+	for (int i = 0; i < n; i++) { g_vals[i] = malloc(24); if (!g_vals[i]) return 0; memset(g_vals[i], i, 24); }
+	return 1;
 }
 
 static int cmp_int(const void *a, const void *b)
@@ -223,6 +237,94 @@ static int op_merge_sort(void)
 }
 static void d_none(void) { }
 
+/* ---------------------------------------------------------------- boundary contents (values + free callback) */
+static int pre_trie_c_a(void)
+{
+	return make_vals(2) && muggle_trie_init(&g_trie, 0) && muggle_trie_insert(&g_trie, "a", g_vals[1]);
+}
+static int op_trie_c_empty(void) { return muggle_trie_insert(&g_trie, "", g_vals[0]) != NULL; }
+static int pre_trie_c_pool(void)
+{
+	return make_vals(3) && muggle_trie_init(&g_trie, 8) && muggle_trie_insert(&g_trie, "a", g_vals[1]) &&
+		muggle_trie_insert(&g_trie, "ab", g_vals[2]);
+}
+static int pre_trie_c_single(void) { return make_vals(1) && muggle_trie_init(&g_trie, 0); }
+static void d_trie_c(void) { muggle_trie_destroy(&g_trie, cb_free_val, NULL); }
+
+static int pre_avl_c(void)
+{
+	if (!make_vals(4) || !muggle_avl_tree_init(&g_avl, cmp_int, 0)) return 0;
+	if (!muggle_avl_tree_insert(&g_avl, &g_keys[1], g_vals[1])) return 0;   /* 20 */
+	if (!muggle_avl_tree_insert(&g_avl, &g_keys[0], g_vals[2])) return 0;   /* 10 */
+	if (!muggle_avl_tree_insert(&g_avl, &g_keys[2], g_vals[3])) return 0;   /* 30 */
+	return muggle_avl_tree_insert(&g_avl, &g_keys[0], NULL) == NULL;          /* duplicate 10: rejected */
+}
+static int g_five = 5;
+static int op_avl_c(void) { return muggle_avl_tree_insert(&g_avl, &g_five, g_vals[0]) != NULL; }
+static int pre_avl_c_single(void) { return make_vals(1) && muggle_avl_tree_init(&g_avl, cmp_int, 0); }
+static void d_avl_c(void) { muggle_avl_tree_destroy(&g_avl, NULL, NULL, cb_free_val, NULL); }
+
+static int pre_ht_c(void)
+{
+	if (!make_vals(3) || !muggle_hash_table_init(&g_ht, 16, NULL, cmp_str, 0)) return 0;
+	if (!muggle_hash_table_put(&g_ht, "a", g_vals[1]) || !muggle_hash_table_put(&g_ht, "b", g_vals[2])) return 0;
+	return muggle_hash_table_put(&g_ht, "a", NULL) == NULL;                    /* duplicate: rejected */
+}
+static int op_ht_c(void) { return muggle_hash_table_put(&g_ht, "c", g_vals[0]) != NULL; }
+static int pre_ht_c_single(void) { return make_vals(1) && muggle_hash_table_init(&g_ht, 16, NULL, cmp_str, 0); }
+static void d_ht_c(void) { muggle_hash_table_destroy(&g_ht, NULL, NULL, cb_free_val, NULL); }
+
+static int pre_ll_c(void)
+{
+	return make_vals(3) && muggle_linked_list_init(&g_ll, 0) && muggle_linked_list_append(&g_ll, NULL, g_vals[1]) &&
+		muggle_linked_list_append(&g_ll, NULL, g_vals[2]);
+}
+static int op_ll_c_head(void) { return muggle_linked_list_insert(&g_ll, NULL, g_vals[0]) != NULL; }
+static int pre_ll_c_pool(void)
+{
+	return make_vals(2) && muggle_linked_list_init(&g_ll, 2) && muggle_linked_list_append(&g_ll, NULL, g_vals[1]);
+}
+static int op_ll_c_append(void) { return muggle_linked_list_append(&g_ll, NULL, g_vals[0]) != NULL; }
+static void d_ll_c(void) { muggle_linked_list_destroy(&g_ll, cb_free_val, NULL); }
+
+static int pre_q_c(void)
+{
+	return make_vals(3) && muggle_queue_init(&g_q, 0) && muggle_queue_enqueue(&g_q, g_vals[1]) &&
+		muggle_queue_enqueue(&g_q, g_vals[2]);
+}
+static int pre_q_c_pool(void) { return make_vals(2) && muggle_queue_init(&g_q, 2) && muggle_queue_enqueue(&g_q, g_vals[1]); }
+static int op_q_c(void) { return muggle_queue_enqueue(&g_q, g_vals[0]) != NULL; }
+static void d_q_c(void) { muggle_queue_destroy(&g_q, cb_free_val, NULL); }
+
+static int pre_al_c(int n)
+{
+	if (!make_vals(n + 1) || !muggle_array_list_init(&g_al, 4)) return 0;
+	for (int i = 1; i <= n; i++) if (!muggle_array_list_append(&g_al, -1, g_vals[i])) return 0;
+	return 1;
+}
+static int pre_al_c3(void) { return pre_al_c(3); }
+static int pre_al_c4(void) { return pre_al_c(4); }
+static int op_al_c_index0(void) { return muggle_array_list_insert(&g_al, 0, g_vals[0]) != NULL; }
+static void d_al_c(void) { muggle_array_list_destroy(&g_al, cb_free_val, NULL); }
+
+static int pre_heap_c4(void)
+{
+	if (!make_vals(5) || !muggle_heap_init(&g_heap, cmp_int, 4)) return 0;
+	for (int i = 1; i <= 4; i++) if (!muggle_heap_insert(&g_heap, &g_keys[i], g_vals[i])) return 0;
+	return 1;
+}
+static int op_heap_c(void) { return muggle_heap_insert(&g_heap, &g_keys[0], g_vals[0]) ? 1 : 0; }
+static void d_heap_c(void) { muggle_heap_destroy(&g_heap, NULL, NULL, cb_free_val, NULL); }
+
+static int pre_stack_c3(void)
+{
+	if (!make_vals(4) || !muggle_stack_init(&g_stack, 4)) return 0;
+	for (int i = 1; i <= 3; i++) if (!muggle_stack_push(&g_stack, g_vals[i])) return 0;
+	return 1;
+}
+static int op_stack_c(void) { return muggle_stack_push(&g_stack, g_vals[0]) != NULL; }
+static void d_stack_c(void) { muggle_stack_destroy(&g_stack, cb_free_val, NULL); }
+
 /* ---------------------------------------------------------------- event / net / log */
 static int op_sig(void) { return muggle_ev_signal_init(&g_sig) == 0; }
 static void d_sig(void) { muggle_ev_signal_destroy(&g_sig); }
@@ -341,6 +443,8 @@ struct inst {
 	void (*destroy)(void);
 	int dfail;             /* destroy also after a reported failure */
 	int settle;            /* another thread releases: wait until the counts are stable */
+	int nvals;             /* > 0: values stored in the container, released through the counted callback */
+	int retry;             /* a reported failure is followed by a retry without faults ("safe to retry") */
 };
 static const struct inst g_inst[] = {
 	{ "channel_init_mutex", NULL, op_chan_mutex, d_chan, 1, 0 },
@@ -405,6 +509,21 @@ static const struct inst g_inst[] = {
 	{ "socket_evloop_on_read_accept", pre_accept, op_accept, d_accept, 1, 0 },
 	{ "socket_evloop_on_wake", pre_wake, op_wake, d_wake, 1, 0 },
 	{ "channel_init_rmutex", NULL, op_chan_rmutex, d_chan, 1, 0 },
+	{ "trie_content_empty_key", pre_trie_c_a, op_trie_c_empty, d_trie_c, 1, 0, 2, 1 },
+	{ "trie_content_empty_key_pool", pre_trie_c_pool, op_trie_c_empty, d_trie_c, 1, 0, 3, 1 },
+	{ "trie_content_single_empty", pre_trie_c_single, op_trie_c_empty, d_trie_c, 1, 0, 1, 1 },
+	{ "avl_tree_content", pre_avl_c, op_avl_c, d_avl_c, 1, 0, 4, 1 },
+	{ "avl_tree_content_single", pre_avl_c_single, op_avl_c, d_avl_c, 1, 0, 1, 1 },
+	{ "hash_table_content", pre_ht_c, op_ht_c, d_ht_c, 1, 0, 3, 1 },
+	{ "hash_table_content_single", pre_ht_c_single, op_ht_c, d_ht_c, 1, 0, 1, 1 },
+	{ "linked_list_content_head", pre_ll_c, op_ll_c_head, d_ll_c, 1, 0, 3, 1 },
+	{ "linked_list_content_pool_full", pre_ll_c_pool, op_ll_c_append, d_ll_c, 1, 0, 2, 1 },
+	{ "queue_content", pre_q_c, op_q_c, d_q_c, 1, 0, 3, 1 },
+	{ "queue_content_pool_full", pre_q_c_pool, op_q_c, d_q_c, 1, 0, 2, 1 },
+	{ "array_list_content_index0_full", pre_al_c3, op_al_c_index0, d_al_c, 1, 0, 4, 1 },
+	{ "array_list_content_index0_grow", pre_al_c4, op_al_c_index0, d_al_c, 1, 0, 5, 1 },
+	{ "heap_content_grow", pre_heap_c4, op_heap_c, d_heap_c, 1, 0, 5, 1 },
+	{ "stack_content_full", pre_stack_c3, op_stack_c, d_stack_c, 1, 0, 4, 1 },
 };
 #define N_INST ((int)(sizeof(g_inst) / sizeof(g_inst[0])))
 
@@ -421,7 +540,7 @@ static void on_alarm(int sig)
 	_exit(7);
 }
 
-static void case_begin(void) { cur = NULL; nks = 0; have_faults = 0; alarm(4); }
+static void case_begin(void) { cur = NULL; nks = 0; have_faults = 0; g_fill = 0; alarm(4); }
 
 static void case_line(char *line)
 {
@@ -431,6 +550,9 @@ static void case_line(char *line)
 	if (strcmp(w, "inst") == 0) {
 		if (sscanf(line + off, "%127s %d", name, &id) < 1) return;
 		for (int i = 0; i < N_INST; i++) if (strcmp(g_inst[i].name, name) == 0) cur = &g_inst[i];
+	} else if (strcmp(w, "fill") == 0) {
+		unsigned v = 0;
+		if (sscanf(line + off, "%x", &v) == 1) g_fill = (int)(v & 0xff);
 	} else if (strcmp(w, "faults") == 0) {
 		char *p = line + off;
 		int v, n;
@@ -443,6 +565,7 @@ static void case_end(void)
 {
 	if (!cur || !have_faults) { printf("?\n"); alarm(0); return; }
 	zero_all();
+	g_cb_count = 0;
 	fi_begin();
 	if (cur->pre && !cur->pre()) { printf("pre FAILED\n"); fi_end(); alarm(0); return; }
 	if (cur->settle) fi_settle();
@@ -454,10 +577,18 @@ static void case_end(void)
 	if (cur->settle) fi_settle();
 	printf("op rc=%s att=%d live=%d\n", ok ? "ok" : "fail", att, fi_live_blocks() + fi_live_fds());
 	fflush(stdout);
+	if (!ok && cur->retry) {
+		ok = cur->op();
+		printf("retry rc=%s\n", ok ? "ok" : "fail");
+		fflush(stdout);
+	}
 	if (ok || cur->dfail) {
 		cur->destroy();
 		if (cur->settle) fi_settle();
-		printf("destroy live=%d\n", fi_live_blocks() + fi_live_fds());
+		if (cur->nvals > 0)
+			printf("destroy live=%d freed=%d\n", fi_live_blocks() + fi_live_fds(), g_cb_count);
+		else
+			printf("destroy live=%d\n", fi_live_blocks() + fi_live_fds());
 	} else {
 		printf("destroy skipped live=%d\n", fi_live_blocks() + fi_live_fds());
 	}
